@@ -405,6 +405,8 @@ where for<'x> &'x R: RingOps<R> {
     req.push_str(&format!(" {}", ents.len()));
     for e in &ents { req.push(' '); req.push_str(e); }
 
+    newstr_case(s, &a, (m, n), t, c, &kind);
+
     let mut seq: Vec<(usize, usize)> = vec![];
     let mut evs: Vec<String> = vec![];
     let (mut ncommit, mut nretry, mut nstale, mut ngiveup) = (0u64, 0u64, 0u64, 0u64);
@@ -446,6 +448,53 @@ where for<'x> &'x R: RingOps<R> {
     sorted.sort_by_key(|p| (p.1, p.0));
     let reply = format!("piv:{} chk:ok", pairs_str(&sorted));
     s.case(&req, &reply, !evs.is_empty());
+}
+
+/// `MatrixStr::new` is private and has no observation hook, so its fields cannot be read.  What is compared instead:
+/// the Lean code model `matrixStrNew` (the subject of Props/C11New.lean) is run on the RAW CSC storage of `a` as the
+/// real library reports it (`a.iter()` order, `is_zero` / `is_pm_one` / `is_unit` / `c_weight` of every stored value),
+/// and must reproduce the structure derived here independently of the storage: a row-major scan of the dense matrix,
+/// candidates decided by the generator's knowledge of every entry's kind.  The same structure (built by the same
+/// `Str.build`) is the one the `trace` request replays the real run on.
+fn newstr_case<R: Scal>(s: &mut Sink, a: &SpMat<R>, (m, n): (usize, usize), t: PivotType, c: Cond, kind: &[Option<Kind>])
+where for<'x> &'x R: RingOps<R> {
+    let mut cols: Vec<Vec<String>> = vec![vec![]; n];
+    let mut stored_zero = false;
+    for (i, j, x) in a.iter() {
+        let w = x.c_weight();
+        if !(w >= 0.0 && w.fract() == 0.0 && w < 1e9) { return }
+        if x.is_zero() { stored_zero = true; }
+        cols[j].push(format!("{} {} {} {} {}", i, x.is_zero() as u8, x.is_pm_one() as u8, x.is_unit() as u8, w as u64));
+    }
+    let (ck, w2) = match c { Cond::One => (0, 0), Cond::AnyUnit => (1, 0), Cond::Weight(w2) => (2, w2) };
+    let mut req = format!("newstr {} {} {} {} {}", if t == PivotType::Rows { 0 } else { 1 }, ck, w2, m, n);
+    for col in &cols {
+        req.push_str(&format!(" {}", col.len()));
+        for e in col { req.push(' '); req.push_str(e); }
+    }
+    let dense = a.clone().into_dense();
+    let (mi, ni) = if t == PivotType::Rows { (m, n) } else { (n, m) };
+    let (mut ent, mut cnd) = (vec![vec![]; mi], vec![vec![]; mi]);
+    let (mut rw, mut cw) = (vec![0u64; mi], vec![0u64; ni]);
+    for ii in 0..mi {
+        for jj in 0..ni {
+            let (i, j) = if t == PivotType::Rows { (ii, jj) } else { (jj, ii) };
+            let x = &dense[(i, j)];
+            let Some(k) = kind[i * n + j] else { continue };
+            if x.is_zero() { continue }
+            let w = x.c_weight() as u64;
+            ent[ii].push(jj.to_string());
+            rw[ii] += w;
+            cw[jj] += w;
+            if c.holds(k, w) { cnd[ii].push(jj.to_string()); }
+        }
+    }
+    let rows = |v: &Vec<Vec<String>>| v.iter().map(|r| r.join(",")).collect::<Vec<_>>().join(";");
+    let nums = |v: &Vec<u64>| v.iter().map(|x| x.to_string()).collect::<Vec<_>>().join(",");
+    let reply = format!("str {}x{} ent={} cnd={} rw={} cw={}", mi, ni, rows(&ent), rows(&cnd), nums(&rw), nums(&cw));
+    s.count("newstr.cases");
+    if stored_zero { s.count("newstr.with_stored_zero"); }
+    s.case(&req, &reply, ent.iter().any(|r| r.len() > 1));
 }
 
 // ---------------------------------------------------------------------------------------------
